@@ -76,7 +76,7 @@ def shift_line(parse_line, line_no, nchars):
 
 
 def run(ctx):
-    proof_ok, can_run = common.prepare(ctx, "C07")
+    proof_ok, can_run = common.prepare(ctx, "C07+C07par")
     if not can_run:
         common.broken_without_input(ctx, "build", ctx.notes[-1] if ctx.notes else "")
         return
